@@ -5,7 +5,7 @@ CONSTANT Disabled = "none"
 CONSTANT MaxLen = 2
 CONSTANT OutVals = {0, 1}
 CONSTANT Vals = {0, 1, 2}
-CONSTANT LuRows = {1, 2}
+CONSTANT LuRows = {1}
 CONSTANT Mode = "single"
 INIT Init
 NEXT Next
